@@ -38,7 +38,7 @@ QUICK_PAIRS = int(os.environ.get("C02_QUICK_PAIRS", "24"))
 # thorough: every bindable element of the universe is run (singles with recomputed and with stale checksum, pairs, triples);
 # the state of FLAGGED stale-checksum singles is projected (evidence only) inside a 1-in-STALE_EVERY subsample
 STALE_EVERY = 6
-OWNER_EVERY = 8             # quick: uid_hi / gid_hi recipes of C02Bounds outside the quota profile, one in OWNER_EVERY
+OWNER_EVERY = 8             # quick: uid_hi / gid_hi recipes of C02Bounds outside the quota profile and recipes on a free inode, one in OWNER_EVERY
 QUICK_XSB = int(os.environ.get("C02_QUICK_XSB", "36"))     # quick: sampled (extra image, Superblock recipe) elements besides the mandatory hash selectors
 # thorough: recipes that e2fsck flags hold trivially; their state is projected (for the evidence: how many of the
 # inconsistent states e2fsck flags, reader/e2fsck agreement) for one in FLAGGED_EVERY
@@ -306,11 +306,14 @@ def select(tier, U, profiles, pool, rng, quick_n=None, quick_pairs=None, all_sta
         pick += rng.sample(rest, min(len(rest), nfix)) + rng.sample(cand_stale, min(len(cand_stale), quick_n // 6)) + \
             rng.sample(cand_pair, min(len(cand_pair), quick_pairs))
         picked = set(pick)
-        # the closed sets always, for every seed.  Thinned in the quick tier: the ownership fields (uid / gid high halves) take part in
-        # no listed invariant except through the quota files -> every one of them on the quota profiles, one in OWNER_EVERY elsewhere
+        # the closed sets always, for every seed.  Thinned in the quick tier: what takes part in no listed invariant -- the ownership
+        # fields (uid / gid high halves; they matter through the quota files only -> every one of them on the quota profile) and the
+        # fields of a FREE inode -- is run for one in OWNER_EVERY
         allr_ = singles + prs
         def thin(p, k):
-            if k < nb0 or allr_[k][0]["field"] not in ("uid_hi", "gid_hi") or p == "quota": return False
+            if k < nb0: return False
+            r = allr_[k][0]
+            if not (r["role"] == "free_inode" or (r["field"] in ("uid_hi", "gid_hi") and p != "quota")): return False
             return rng.randrange(OWNER_EVERY) != 0
         pick += [(p, k) for p in profiles for k in sorted(bindmap[p]) if k >= len(singles + prs) - ntr and (p, k) not in picked and not thin(p, k)]
         nrel0 = len(singles + prs) - len(rel) - len(bnd)
@@ -533,8 +536,8 @@ def run(tier):
             "C02's own tool-built images (gen/c02_extras.py: htree directories with names >= 0x80 under legacy / half_md4 / tea x signed / unsigned, a detached directory cycle)",
             "both tiers run every bindable element of Corrupt.tla!C02Bounds on every base image (high halves *_hi of the group descriptor and of the inode; block numbers "
             "blocks_count - 1 / blocks_count / first_data_block / first_data_block - 1, inode numbers inodes_count / inodes_count + 1 / first_ino - 1, per-group counts "
-            "maximum / maximum + 1; checksum recomputed); the state is projected when e2fsck -fn exits 0.  quick thins only the uid / gid high halves (part of no listed "
-            "invariant except through the quota files): all on the quota profile, one in %d elsewhere" % OWNER_EVERY,
+            "maximum / maximum + 1; checksum recomputed); the state is projected when e2fsck -fn exits 0.  quick thins only what is part of no listed invariant: the uid / gid high halves (they matter "
+            "through the quota files: all of them on the quota profile) and the fields of a free inode -- one in %d of those" % OWNER_EVERY,
             "superblock recipes are bound on the tool-built htree images that are clean and Consistent as built: the hash selectors (each bit of s_flags, both hash bits, every "
             "s_def_hash_version) on every image by both tiers, the rest of the Superblock table in full by thorough and as a seeded sample of %d by quick" % QUICK_XSB,
             "thorough runs every bindable universe element; the state of an image is projected whenever e2fsck -fn exits 0; states of FLAGGED images (the property holds "
